@@ -10,3 +10,4 @@ reg("C20", "exploration", [
     P("fpcfg", "all", package="fpcfg", features="cfg_mm", name="cfg-mm"),
     P("fpcfg", "all", package="fpcfg", features="cfg_std", name="cfg-std"),
 ])
+reg("C12", "exploration", [P("tex", "all")])
